@@ -63,33 +63,37 @@ type Case struct {
 
 // Self is the probe's self-report (probes/launch.c).
 type Self struct {
-	CapOK         bool              `json:"capok"`
-	Eff           []int             `json:"eff"`
-	Perm          []int             `json:"perm"`
-	Inh           []int             `json:"inh"`
-	Bnd           []int             `json:"bnd"`
-	Amb           []int             `json:"amb"`
-	SecBits       int               `json:"secbits"`
-	NNP           int               `json:"nnp"`
-	SeccompPrctl  int               `json:"seccomp_prctl"`
-	UIDs          []int             `json:"uids"`
-	GIDs          []int             `json:"gids"`
-	Groups        []int             `json:"groups"`
-	Pid           int               `json:"pid"`
-	PPid          int               `json:"ppid"`
-	Sid           int               `json:"sid"`
-	Pgid          int               `json:"pgid"`
-	Cwd           string            `json:"cwd"`
-	Host          string            `json:"host"`
-	Domain        string            `json:"domain"`
-	Proc          bool              `json:"proc"`
-	SeccompStatus string            `json:"seccomp_status"`
-	NNPStatus     string            `json:"nnp_status"`
-	NSpid         string            `json:"nspid"`
-	Tracer        string            `json:"tracer"`
-	NS            map[string]string `json:"ns"`
-	RootID        string            `json:"rootid"`
-	Argc          int               `json:"argc"`
+	CapOK          bool              `json:"capok"`
+	Eff            []int             `json:"eff"`
+	Perm           []int             `json:"perm"`
+	Inh            []int             `json:"inh"`
+	Bnd            []int             `json:"bnd"`
+	Amb            []int             `json:"amb"`
+	SecBits        int               `json:"secbits"`
+	NNP            int               `json:"nnp"`
+	SeccompPrctl   int               `json:"seccomp_prctl"`
+	UIDs           []int             `json:"uids"`
+	GIDs           []int             `json:"gids"`
+	Groups         []int             `json:"groups"`
+	Pid            int               `json:"pid"`
+	PPid           int               `json:"ppid"`
+	Sid            int               `json:"sid"`
+	Pgid           int               `json:"pgid"`
+	Cwd            string            `json:"cwd"`
+	Host           string            `json:"host"`
+	Domain         string            `json:"domain"`
+	Proc           bool              `json:"proc"`
+	SeccompStatus  string            `json:"seccomp_status"`
+	NNPStatus      string            `json:"nnp_status"`
+	NSpid          string            `json:"nspid"`
+	Tracer         string            `json:"tracer"`
+	NS             map[string]string `json:"ns"`
+	SeccompFilters string            `json:"seccomp_filters"`
+	PersonaErrno   int               `json:"persona_errno"`
+	NoFile         int               `json:"nofile"`
+	EnvQ           string            `json:"envq"`
+	RootID         string            `json:"rootid"`
+	Argc           int               `json:"argc"`
 }
 
 func emptySelf() Self {
